@@ -164,6 +164,11 @@ func run(c *core.Ctx) {
 			}
 		}
 	}
+	for _, glb := range conts {
+		if c.Next() {
+			k.afterFailedWrite(glb)
+		}
+	}
 	c.Bound("files.save_sequences", "every sequence of 1..3 SaveText / SaveBinary calls over three scenes (two models with materials, textures and a light; one plain triangle; the empty scene) to one path; the file must equal the in-memory write of the last")
 	for r := range f32Ladder {
 		each("models=1/transform-ladder", []ModelSpec{{Mesh: "A", Mat: "-", TRS: fmt.Sprintf("L%d", r)}})
@@ -263,6 +268,10 @@ func replay(c *core.Ctx) {
 	var cs Case
 	if err := json.Unmarshal(c.Replay, &cs); err != nil {
 		c.HarnessError("bad case: %v", err)
+		return
+	}
+	if len(cs.SaveSeq) == 1 && cs.SaveSeq[0] == -1 {
+		checker{c}.afterFailedWrite(cs.GLB)
 		return
 	}
 	if len(cs.SaveSeq) > 0 {
